@@ -215,9 +215,9 @@ impl Pair {
   }
 
   /// Deliver a bad token to one side and let every message it provokes flow (tainted) until quiet.
-  pub fn inject(&mut self, to_b: bool, tok: &Token) {
+  pub fn inject(&mut self, to_b: bool, tok: &Token, bad: bool) {
     let (ap, bp) = (self.ap(), self.bp());
-    let mut queue: Vec<(bool, Token, bool)> = vec![(to_b, tok.clone(), true)];
+    let mut queue: Vec<(bool, Token, bool)> = vec![(to_b, tok.clone(), bad)];
     let mut n = 0;
     while let Some((tb, t, bad)) = queue.pop() {
       n += 1;
@@ -408,6 +408,12 @@ pub fn apply(alt: &Alt, m: &Token, old: &Token) -> Option<Token> {
   Some(t)
 }
 
+/// Removing (or renaming away) only the optional hash_c1 / hash_c2 aids leaves the genuine content: a token
+/// altered that way is not "bad" (DDS-Security 1.1 tables 49-51).
+pub fn is_void(alt: &Alt) -> bool {
+  matches!(alt, Alt::DropProp(n) | Alt::RenameProp(n) if n == "hash_c1" || n == "hash_c2")
+}
+
 /// names and lengths of the binary properties of a token
 pub fn props_of(t: &Token) -> Vec<(String, usize)> {
   t.data_holder.binary_properties.iter().map(|p| (p.name.clone(), p.value.len())).collect()
@@ -425,6 +431,17 @@ pub struct Scenario {
   /// which genuine message the bad token derives from (0, 1, 2)
   pub msg: usize,
   pub alt: Alt,
+  /// a second bad token, injected after `steps_between` further genuine deliveries
+  #[serde(default)]
+  pub second: Option<Second>,
+}
+
+#[derive(Clone, Debug, serde::Serialize, serde::Deserialize)]
+pub struct Second {
+  pub steps_between: usize,
+  pub to_b: bool,
+  pub msg: usize,
+  pub alt: Alt,
 }
 
 #[derive(Clone, Debug, serde::Serialize, serde::Deserialize)]
@@ -438,6 +455,9 @@ pub struct RunResult {
   pub secrets_equal: bool,
   pub final_states: String,
   pub last_errs: String,
+  /// the replier, waiting for a request, accepted a bad token as the request
+  #[serde(default)]
+  pub replier_accepted_bad_request: bool,
 }
 
 pub struct Transcript {
@@ -490,6 +510,7 @@ pub fn run(conf_a: &Conf, conf_b: &Conf, sc: &Scenario, old: &Transcript) -> Res
     secrets_equal: false,
     final_states: String::new(),
     last_errs: String::new(),
+    replier_accepted_bad_request: false,
   };
   // messages of this run the adversary has seen: m[0..=pos] (the one in flight included), older ones from the old run
   let real_len = p.m.len().min(3);
@@ -506,9 +527,43 @@ pub fn run(conf_a: &Conf, conf_b: &Conf, sc: &Scenario, old: &Transcript) -> Res
   na.applicable = true;
   let st_before = if sc.to_b { p.b.st } else { p.a.st };
   na.target_state = format!("{st_before:?}");
-  p.inject(sc.to_b, &tok);
+  p.inject(sc.to_b, &tok, !is_void(&sc.alt));
   let st_after = if sc.to_b { p.b.st } else { p.a.st };
   na.accepted = st_after != st_before;
+  na.replier_accepted_bad_request = sc.to_b && st_before == DState::ReqMsg && st_after != st_before;
+  let mut in_flight = in_flight;
+  if let Some(sec) = &sc.second {
+    // the genuine run goes on for a while, then the second bad token arrives
+    let mut steps = 0;
+    while steps < sec.steps_between && p.m.len() <= 3 {
+      // deliver the genuine message in flight through the normal path
+      if let Some((tb, t)) = in_flight.take() {
+        let (ap, bp) = (p.ap(), p.bp());
+        let out = if tb { p.b.deliver(ap, &t, false) } else { p.a.deliver(bp, &t, false) };
+        if let Some((o, obad)) = out.into_iter().next() {
+          if !obad && p.m.len() < 3 {
+            p.m.push(o.clone());
+          }
+          in_flight = Some((!tb, o));
+        }
+      }
+      steps += 1;
+    }
+    let real_len = p.m.len().min(3);
+    if sec.msg < real_len {
+      if let Some(tok2) = apply(&sec.alt, &p.m[sec.msg].clone(), &old.m[sec.msg]) {
+        let same_as_flight = in_flight.as_ref().map(|(tb, t)| *tb == sec.to_b && *t == tok2).unwrap_or(false);
+        if !same_as_flight {
+          let before = if sec.to_b { p.b.st } else { p.a.st };
+          p.inject(sec.to_b, &tok2, !is_void(&sec.alt));
+          let after = if sec.to_b { p.b.st } else { p.a.st };
+          if sec.to_b && before == DState::ReqMsg && after != before {
+            na.replier_accepted_bad_request = true;
+          }
+        }
+      }
+    }
+  }
   p.continue_genuinely(in_flight, 6);
   na.completed_on_bad = p.a.completed_on_bad.clone().or(p.b.completed_on_bad.clone());
   na.completed = p.done();
